@@ -148,8 +148,9 @@ impl SecondaryTransaction {
                     guard.insert(path, Bytes::from(buf));
                 }
                 _ => {
-                    // A crash after this write and before the manifest append leaves the file behind,
-                    // unreferenced, and recovery hands out the same DV id again: overwrite it.
+                    // A crash after this write and before the manifest append leaves the file
+                    // behind, unreferenced, and recovery hands out the same DV
+                    // id again: overwrite it.
                     let mut file = tokio::fs::OpenOptions::default()
                         .write(true)
                         .create(true)
